@@ -73,7 +73,7 @@ def _inlinable(tu, caller, e, stack, keep):
     return callee
 
 
-def view(tu, fn, depth=3, keep=None):
+def view(tu, fn, depth=6, keep=None):
     """-> Fn (a new object; `fn` itself when nothing was inlined)"""
     keep = keep_names() if keep is None else keep
     cache = tu.__dict__.setdefault("_inline_cache", {})
@@ -255,6 +255,18 @@ def _splice(rec, b, k, e, callee, n):
     if cont.get("term") and cont["term"].get("cond") is not None:
         cont["term"] = dict(cont["term"])
         cont["term"]["cond"] = _replace(cont["term"]["cond"], call_tree, ret_tree)
+    # the call expression may also be an operand of an expression completed in a later block (`a || f(x)`,
+    # `c ? f(x) : y`): there, too, its value is what the helper returned
+    for ob in blocks:
+        if ob is b:
+            continue
+        for oe in ob["ev"]:
+            for key in TREE_KEYS:
+                if key in oe and oe[key] is not None and table.contains(oe[key], call_tree):
+                    oe[key] = _replace(oe[key], call_tree, ret_tree)
+        ot = ob.get("term")
+        if ot and ot.get("cond") is not None and table.contains(ot["cond"], call_tree):
+            ot["cond"] = _replace(ot["cond"], call_tree, ret_tree)
     # callee blocks
     idmap = {cb["id"]: base + i for i, cb in enumerate(callee.rec["blocks"])}
     new_blocks = []
